@@ -109,7 +109,7 @@ func c10RunOne(t *testing.T, sc c10Scenario, prefix []int, expect []gate.PointRe
 					pend = append(pend, k)
 				}
 				sort.Strings(pend)
-				fmt.Fprintf(&sb, "|term=%v err=%q closed=%v done=%v pend=%v smu=%v pmu=%v", cr.terminated.Load(), errStr, cr.closedSend, doneClosed, pend, cr.sendMu.Held(), cr.pendingMu.Held())
+				fmt.Fprintf(&sb, "|term=%v err=%q closed=%v done=%v pend=%v smu=%v pmu=%v", cr.terminated.Load(), errStr, cr.closedSend, doneClosed, pend, mutexHeld(&cr.sendMu), mutexHeld(&cr.pendingMu))
 				obs.mu.Lock()
 				keys := make([]string, 0, len(obs.SendRet))
 				for k, v := range obs.SendRet {
@@ -201,7 +201,13 @@ func c10Judge(sc c10Scenario, obs *c10Obs, fp *fakeProc, x *gate.Exec) []gateVer
 	}
 	obs.mu.Lock()
 	defer obs.mu.Unlock()
-	if x.Overrun {
+	parked := func() []string {
+		if x == nil {
+			return nil
+		}
+		return x.Waiting()
+	}
+	if x != nil && x.Overrun {
 		add("step-overrun", "execution did not finish within %d steps", x.MaxSteps)
 		return out
 	}
@@ -211,10 +217,10 @@ func c10Judge(sc c10Scenario, obs *c10Obs, fp *fakeProc, x *gate.Exec) []gateVer
 			ks = append(ks, k)
 		}
 		sort.Strings(ks)
-		add("deadlock-sendRequest", "sendRequest never returned for %v; parked: %v", ks, x.Waiting())
+		add("deadlock-sendRequest", "sendRequest never returned for %v; parked: %v", ks, parked())
 	}
 	if !obs.MainDone {
-		add("deadlock-waitForResponses", "closeSend/stop + waitForResponses never returned; parked: %v", x.Waiting())
+		add("deadlock-waitForResponses", "closeSend/stop + waitForResponses never returned; parked: %v", parked())
 	}
 	if !obs.PostDone {
 		add("deadlock-post-send", "sendRequest after the client finished never returned")
@@ -306,7 +312,7 @@ func c10Scenarios(thorough bool) []c10Scenario {
 	if thorough {
 		senderSets = append(senderSets, [][]string{{"a", "b"}, {"a", "c"}}, [][]string{{"a", "a"}}, [][]string{{"a", "b"}, {"c", "d"}})
 	}
-	faults := []string{"none", "exit0", "exit1", "cut", "dup", "unknown", "oversize", "garbage", "stall"}
+	faults := []string{"none", "exit0", "exit1", "cut", "dup", "unknown", "oversize", "garbage", "stall", "garbage-high", "oversize-max"}
 	for _, ss := range senderSets {
 		total := 0
 		for _, s := range ss {
@@ -417,3 +423,136 @@ func c10Outcome(sc c10Scenario, obs *c10Obs) string {
 }
 
 var _ = errors.New
+
+// TestVerifC10Race runs the same scenario bodies free (real goroutines, real
+// sync, no bubble) under the race detector: the cooperative scheduler's
+// hand-offs are happens-before edges that would blind it.
+func TestVerifC10Race(t *testing.T) {
+	r := rep.New("c10-race")
+	defer r.Write()
+	r.Rule = "the C10 scenarios (except the ones that need the 20 s timeout) executed free-running under the race detector, several times each, judged by the same oracle; non-trivial = distinct scenario"
+	gate.SetFreeRunning(true)
+	defer gate.SetFreeRunning(false)
+	reps := 3
+	if rep.Thorough() {
+		reps = 10
+	}
+	var k int64
+	for _, sc := range c10Scenarios(rep.Thorough()) {
+		if sc.Fault == "stall" {
+			continue
+		}
+		k++
+		if !r.Mine(k) {
+			continue
+		}
+		for i := 0; i < reps; i++ {
+			obs, fp, verdicts := c10RunFree(sc)
+			r.Eval(1)
+			r.Outcome(c10Outcome(sc, obs))
+			for _, v := range verdicts {
+				r.Violate(v.key, v.detail+" | free-running, scenario="+sc.String(), map[string]any{"scenario": sc, "choices": []int{}})
+			}
+			_ = fp
+		}
+		r.NonTrivial("")
+		if k%40 == 1 {
+			r.Sample(sc)
+		}
+	}
+}
+
+func c10RunFree(sc c10Scenario) (*c10Obs, *fakeProc, []gateVerdict) {
+	obs := &c10Obs{SendRet: map[string]string{}, SendPending: map[string]bool{}}
+	fp := newFakeProc(nil, fakeScript{Fault: sc.Fault, FaultAt: sc.FaultAt, CutBytes: sc.CutBytes, StdinFault: sc.StdinFault, StdinFaultAt: sc.StdinFaultAt})
+	ctx, cancel := context.WithCancel(context.Background())
+	defer cancel()
+	runner, err := runClient(ctx, fp.starter())
+	if err != nil {
+		panic(err)
+	}
+	callback := func(name string, resp *conformancev1.ClientCompatResponse, err error) {
+		obs.mu.Lock()
+		defer obs.mu.Unlock()
+		cb := c10Callback{Name: name, Seq: obs.next()}
+		if resp != nil {
+			cb.HasResp = true
+			cb.RespName = resp.TestName
+		}
+		if err != nil {
+			cb.Err = err.Error()
+		}
+		obs.Callbacks = append(obs.Callbacks, cb)
+	}
+	var wg sync.WaitGroup
+	for si, names := range sc.Senders {
+		wg.Add(1)
+		go func() {
+			defer wg.Done()
+			for i, name := range names {
+				key := fmt.Sprintf("%d/%d/%s", si, i, name)
+				obs.mu.Lock()
+				obs.SendPending[key] = true
+				obs.mu.Unlock()
+				err := runner.sendRequest(&conformancev1.ClientCompatRequest{TestName: name}, callback)
+				obs.mu.Lock()
+				delete(obs.SendPending, key)
+				if err != nil {
+					obs.SendRet[key] = "err:" + err.Error()
+				} else {
+					obs.SendRet[key] = "ok"
+				}
+				obs.mu.Unlock()
+			}
+		}()
+	}
+	done := make(chan struct{})
+	go func() {
+		defer close(done)
+		wg.Wait()
+		if sc.Main == "stop" {
+			runner.stop()
+		} else {
+			runner.closeSend()
+		}
+		err := runner.waitForResponses()
+		obs.mu.Lock()
+		obs.WaitSeq = obs.next()
+		if err != nil {
+			obs.WaitRet = "err:" + err.Error()
+		} else {
+			obs.WaitRet = "ok"
+		}
+		obs.MainDone = true
+		obs.mu.Unlock()
+	}()
+	select {
+	case <-done:
+	case <-time.After(30 * time.Second):
+	}
+	pd := make(chan struct{})
+	go func() {
+		defer close(pd)
+		err := runner.sendRequest(&conformancev1.ClientCompatRequest{TestName: "post/x"}, callback)
+		obs.mu.Lock()
+		if err != nil {
+			obs.PostSend = "err:" + err.Error()
+		} else {
+			obs.PostSend = "ok"
+		}
+		obs.PostDone = true
+		obs.mu.Unlock()
+	}()
+	select {
+	case <-pd:
+	case <-time.After(10 * time.Second):
+	}
+	// the whenDone callback runs on its own goroutine: give it a moment, it is not an oracle
+	for i := 0; i < 200 && runner.isRunning() && fp.hasExited(); i++ {
+		time.Sleep(100 * time.Microsecond)
+	}
+	obs.Running = runner.isRunning()
+	verdicts := c10Judge(sc, obs, fp, nil)
+	fp.kill()
+	return obs, fp, verdicts
+}
